@@ -346,6 +346,10 @@ CORPUS = [
     dict(states=["x", "y"], params=["a", "b"], eqs=["-x*y+a", "x*x-y*y+b"], theta=[0.5, 0.3], x0=[0.9, 0.5],
          times=[0.5, 1.0, 1.5, 2.0], obs=["y", "x"], target=None, weights=[2.0, 0.5], weight_kind="state",
          y=[[1.45, 1.01], [1.45, 0.64], [0.92, 0.81], [0.91, 1.33]]),
+    # the second state-derivative vanishes AT the initial state (x(0) sits on the inflection of -x^3) but not along the path
+    dict(states=["x", "y"], params=["a", "b"], eqs=["a+y-x*x*x", "b-x-3*y/10"], theta=[0.5, 0.3], x0=[0.0, 0.4],
+         times=[0.5, 1.0, 1.5, 2.0], obs=["x", "y"], target=None, weights=None, weight_kind="none",
+         y=[[0.45, 0.35], [0.6, 0.2], [0.9, 0.1], [0.7, 0.05]]),
     # one observed state, per-observation weights as a flat vector
     dict(states=["x", "y"], params=["a", "b"], eqs=["-x*y+a", "x*x-y*y+b"], theta=[0.5, 0.3], x0=[0.9, 0.5],
          times=[0.5, 1.0, 1.5, 2.0], obs=["y"], target=None, weights=[1.0, 2.0, 3.0, 0.5], weight_kind="flat",
